@@ -10,24 +10,27 @@ EXTENDS Integers, Sequences, TLC, Json, IOUtils, P_C06
 
 Rec == ndJsonDeserialize(IOEnv.TRACE)
 
-VARIABLES l, mon, mode, bad
-tvars == <<l, mon, mode, bad>>
+VARIABLES l, mon, mode, bad, nbad
+tvars == <<l, mon, mode, bad, nbad>>
+MaxBad == 300   \* rejected sessions listed individually (all are counted)
 
-TInit == l = 1 /\ mon = PInit(0, 0) /\ mode = "skip" /\ bad = <<>>
+TInit == l = 1 /\ mon = PInit(0, 0) /\ mode = "skip" /\ bad = <<>> /\ nbad = 0
 TNext ==
   /\ l <= Len(Rec)
   /\ l' = l + 1
   /\ LET e == Rec[l] IN
-     IF e.a = "reset" THEN mon' = PInit(e.v0, e.tol) /\ mode' = "ok" /\ bad' = bad
-     ELSE IF mode = "skip" \/ e.a = "end" THEN UNCHANGED <<mon, mode, bad>>
+     IF e.a = "reset" THEN mon' = PInit(e.v0, e.tol) /\ mode' = "ok" /\ UNCHANGED <<bad, nbad>>
+     ELSE IF mode = "skip" \/ e.a = "end" THEN UNCHANGED <<mon, mode, bad, nbad>>
      ELSE LET r == Check(mon, e) IN
-          IF r = "" THEN mon' = Upd(mon, e) /\ UNCHANGED <<mode, bad>>
+          IF r = "" THEN mon' = Upd(mon, e) /\ UNCHANGED <<mode, bad, nbad>>
           ELSE /\ mode' = "skip" /\ UNCHANGED mon
-               /\ bad' = Append(bad, [s |-> e.s, i |-> e.i, a |-> e.a, reason |-> r])
+               /\ nbad' = nbad + 1
+               /\ bad' = IF nbad < MaxBad THEN Append(bad, [s |-> e.s, i |-> e.i, a |-> e.a, reason |-> r]) ELSE bad
 TSpec == TInit /\ [][TNext]_tvars
 
 \* acceptance: the whole file was consumed; rejected sessions are printed
 Done == l = Len(Rec) + 1
 Report == Done => /\ PrintT(<<"BAD", ToJson(bad)>>)
+                  /\ PrintT(<<"REJECTED", nbad>>)
                   /\ PrintT(<<"CONSUMED", l - 1, Len(Rec)>>)
 =============================================================================
